@@ -755,6 +755,181 @@ class C18Executor(Executor):
             return transport_call(self, st, f, args, kwargs, node)
         return super().call(st, f, args, kwargs, node)
 
+    # -- context managers (round 6) ----------------------------------------------
+    def canonical_name(self, e):
+        """Dotted origin of a Name / Attribute chain through the module's imports (None when not an imported name)."""
+        parts = []
+        while isinstance(e, _ast.Attribute):
+            parts.append(e.attr)
+            e = e.value
+        if not isinstance(e, _ast.Name) or e.id not in self.module.imports:
+            return None
+        return ".".join([self.module.imports[e.id]] + parts[::-1])
+
+    def contextmanager_generator(self, call, st):
+        """`with helper(..)` where helper is a module-level / method generator decorated with @contextlib.contextmanager."""
+        if not isinstance(call, _ast.Call):
+            return None
+        f = call.func
+        if isinstance(f, _ast.Name) and st.lookup(f.id) is None and f.id in self.module.functions:
+            fnode, self_val = self.module.functions[f.id], None
+        elif isinstance(f, _ast.Attribute) and isinstance(f.value, _ast.Name) and f.value.id == "self" and st.lookup("self") is not None \
+                and self.cur_fn_stack:
+            owner = next((q for q, n in self.module.functions.items() if n is self.cur_fn_stack[-1]), None)
+            cls = owner.rsplit(".", 1)[0] if owner and "." in owner else None
+            fnode = self.module.functions.get(f"{cls}.{f.attr}") if cls else None
+            self_val = st.lookup("self")
+            if fnode is not None and any(_ast.unparse(d) == "staticmethod" for d in fnode.decorator_list):
+                self_val = None
+        else:
+            return None
+        if fnode is None or any(fnode is x for x in self.cur_fn_stack):
+            return None
+        if not any(self.canonical_name(d) == "contextlib.contextmanager" for d in fnode.decorator_list):
+            return None
+        return fnode, self_val
+
+    @staticmethod
+    def _single_yield(fnode):
+        """(yield statement, code-follows-the-yield?) of a context-manager generator with exactly one `yield` statement
+        outside loops / nested functions; None for any other shape."""
+        found = []
+
+        def walk(block, tail_clean, in_loop):
+            for k, stmt in enumerate(block):
+                clean = tail_clean and k == len(block) - 1
+                if isinstance(stmt, _ast.Expr) and isinstance(stmt.value, _ast.Yield):
+                    found.append((stmt, not clean, in_loop))
+                    continue
+                if isinstance(stmt, (_ast.FunctionDef, _ast.AsyncFunctionDef, _ast.ClassDef)):
+                    continue
+                if any(isinstance(x, (_ast.Yield, _ast.YieldFrom)) for sub in _ast.iter_child_nodes(stmt)
+                       if not isinstance(sub, _ast.stmt) and not isinstance(sub, _ast.ExceptHandler) for x in _ast.walk(sub)):
+                    found.append((None, True, True))       # a yield in expression position
+                if isinstance(stmt, _ast.Try):
+                    walk(stmt.body, clean and not stmt.orelse, in_loop)
+                    for h in stmt.handlers:
+                        walk(h.body, clean, in_loop)
+                    walk(stmt.orelse, clean, in_loop)
+                    walk(stmt.finalbody, False, in_loop)
+                elif isinstance(stmt, _ast.If):
+                    walk(stmt.body, clean, in_loop)
+                    walk(stmt.orelse, clean, in_loop)
+                elif isinstance(stmt, (_ast.With,)):
+                    walk(stmt.body, False, in_loop)
+                elif isinstance(stmt, (_ast.For, _ast.While)):
+                    walk(stmt.body, False, True)
+                    walk(stmt.orelse, False, True)
+                elif hasattr(stmt, "body") and isinstance(getattr(stmt, "body"), list):
+                    walk(stmt.body, False, True)
+        walk(fnode.body, True, False)
+        if len(found) != 1 or found[0][0] is None or found[0][2]:
+            return None
+        return found[0][0], found[0][1]
+
+    def s_With(self, s, st):
+        """Two context managers are executed as the code they stand for (anything else: the engine's rule).
+        * `with contextlib.suppress(E..): B`  ==  `try: B  except (E..): pass`;
+        * `with cm(args) [as v]: B`, cm a @contextlib.contextmanager generator of this module with a single `yield`
+          statement outside loops: the generator's body runs in its own frame and B runs, in the caller's frame, at the yield
+          (an exception of B is raised at the yield: generator.throw; what the generator does not catch or raises itself
+          propagates; handled and finished = suppressed).  A `return` / `break` / `continue` leaving B while code follows the
+          yield, a generator that finishes without reaching its yield: out of subset."""
+        if len(s.items) != 1:
+            if any(self._with_kind(it.context_expr, st) for it in s.items):
+                inner = _ast.With(items=s.items[1:], body=s.body, type_comment=None)
+                outer = _ast.With(items=s.items[:1], body=[_ast.copy_location(inner, s)], type_comment=None)
+                return self.s_With(_ast.copy_location(outer, s), st)
+            return super().s_With(s, st)
+        item = s.items[0]
+        kind = self._with_kind(item.context_expr, st)
+        if kind == "suppress":
+            if item.context_expr.keywords or any(isinstance(a, _ast.Starred) for a in item.context_expr.args):
+                self.unsupported(s, "suppress(..) with starred / keyword arguments")
+            if not item.context_expr.args:
+                return self.exec_block(s.body, st)
+            h = _ast.ExceptHandler(type=_ast.Tuple(elts=list(item.context_expr.args), ctx=_ast.Load()), name=None, body=[_ast.Pass()])
+            t = _ast.Try(body=s.body, handlers=[h], orelse=[], finalbody=[])
+            _ast.copy_location(t, s)
+            _ast.fix_missing_locations(t)
+            return self.s_Try(t, st)
+        if kind == "generator":
+            return self.with_generator(s, st, item)
+        return super().s_With(s, st)
+
+    def _with_kind(self, e, st):
+        if isinstance(e, _ast.Call) and self.canonical_name(e.func) == "contextlib.suppress":
+            return "suppress"
+        if self.contextmanager_generator(e, st) is not None:
+            return "generator"
+        return None
+
+    def with_generator(self, s, st, item):
+        from pyvc.state import Frame
+        call = item.context_expr
+        fnode, self_val = self.contextmanager_generator(call, st)
+        shape = self._single_yield(fnode)
+        if shape is None:
+            self.unsupported(s, f"context manager {fnode.name}: not a single `yield` statement outside loops")
+        ystmt, code_follows = shape
+        if any(k.arg is None for k in call.keywords) or any(isinstance(a, _ast.Starred) for a in call.args):
+            self.unsupported(s, "**kwargs call")
+        outs = []
+        key = f"cm-entered@{id(s)}"
+        for (s1, args) in self.ev_list(call.args, st):
+            for (s2, kwvals) in self.ev_list([k.value for k in call.keywords], s1):
+                env = self.bind_params(fnode, args, {k.arg: v for k, v in zip(call.keywords, kwvals)}, call, self_val=self_val)
+                s2.frames.append(Frame(env, None, fnode))
+                s2.ghost.pop(key, None)
+                self.cur_fn_stack.append(fnode)
+                self._cm_sites = getattr(self, "_cm_sites", [])
+                self._cm_sites.append((ystmt, s, item, key, code_follows))
+                try:
+                    res = self.exec_block(fnode.body, s2)
+                finally:
+                    self.cur_fn_stack.pop()
+                    self._cm_sites.pop()
+                for o in res:
+                    o.st.frames.pop()
+                    if o.kind == "raise":
+                        outs.append(o)
+                    elif o.kind == "cm-exit":
+                        outs.append(Outcome(o.val[0], o.st, o.val[1]))
+                    elif o.kind in ("fall", "return"):
+                        if not o.st.ghost.get(key):
+                            self.unsupported(s, f"context manager {fnode.name} can finish without reaching its yield")
+                        outs.append(Outcome("fall", o.st))
+                    else:
+                        self.unsupported(s, f"{o.kind} leaving a context-manager generator")
+        return outs
+
+    def cm_yield(self, ystmt, st):
+        """The single yield of a context-manager generator: the body of the `with` statement runs here, in the caller's frame."""
+        _y, w, item, key, code_follows = self._cm_sites[-1]
+        outs = []
+        vals = self.ev(ystmt.value.value, st) if ystmt.value.value is not None else [(st, NONE)]
+        for (s1, v) in vals:
+            gframe = s1.frames.pop()
+            gfn = self.cur_fn_stack.pop()
+            sites = self._cm_sites
+            self._cm_sites = sites[:-1]
+            try:
+                s1.ghost[key] = True
+                starts = self.assign(item.optional_vars, v, s1) if item.optional_vars is not None else [s1]
+                res = [o for s2 in starts for o in self.exec_block(w.body, s2)]
+            finally:
+                self.cur_fn_stack.append(gfn)
+                self._cm_sites = sites
+            for o in res:
+                o.st.frames.append(gframe.copy())
+                if o.kind in ("fall", "raise"):
+                    outs.append(o)
+                elif code_follows:
+                    self.unsupported(w, f"{o.kind} leaves the with-body while the context manager has code after its yield")
+                else:
+                    outs.append(Outcome("cm-exit", o.st, (o.kind, o.val)))
+        return outs
+
     def handler_classes(self, h, st):
         # urllib.error.X / json.JSONDecodeError and their short aliases are one class each
         return [n.split(".")[-1] if n.split(".")[0] in ("urllib", "json") else n for n in super().handler_classes(h, st)]
@@ -996,6 +1171,8 @@ class C18Executor(Executor):
 
     def s_Expr(self, s, st):
         v = s.value
+        if getattr(self, "_cm_sites", None) and s is self._cm_sites[-1][0]:
+            return self.cm_yield(s, st)
         if isinstance(v, _ast.Call) and isinstance(v.func, _ast.Attribute) and v.func.attr == "extend" and len(v.args) == 1 \
                 and not v.keywords and isinstance(v.func.value, _ast.Name) and self.single_symbolic_comp(v.args[0], st):
             app = _ast.Expr(value=_ast.Call(func=_ast.Attribute(value=v.func.value, attr="append", ctx=_ast.Load()),
